@@ -8,6 +8,9 @@ package generic
 // return-from / go marker an evaluation hands back: nothing more is evaluated
 // and the marker is the function's result.
 //@ every-function generic forward-exits
+// C05, package-wide (thorough tier): no function makes a number that existed
+// when it was entered the target of a mutating math/big method.
+//@ every-function generic operands-kept
 
 // ---------------------------------------------------------------------------
 // C10: the outcome of a generic call depends only on the methods defined at
